@@ -182,12 +182,32 @@ def rule_guard(ctx):
             continue
         m_ += 1
         first = min(u.lineno for u in uses)
-        guard = [x for x in f.node.body if isinstance(x, ast.If) and norm(x.test) == 'self._bufnum is None' and x.lineno < first
+        guard = [x for x in f.node.body if isinstance(x, ast.If) and x.lineno < first and
+                 'self._bufnum is None' in ([norm(v) for v in x.test.values] if isinstance(x.test, ast.BoolOp) and isinstance(x.test.op, ast.Or) else [norm(x.test)])
                  and x.body and isinstance(x.body[-1], (ast.Raise, ast.Return))]
         ctx.ob('C17.guard', f'{f.fq}:refuses-freed', bool(guard),
                f'Buffer.{name} puts self._bufnum into a command without first refusing a freed buffer (most sibling methods raise '
                f'BufferAlreadyFreed): after free() the command names id None, sent as 0', f.node, f.module)
     ctx.require(m_ >= 20, 'C17.guard', f'only {m_} Buffer methods that name their number found')
+    # ... and the number of another buffer handed in as a parameter (`p.bufnum` inside a command) is refused the same way when that
+    # buffer has been freed
+    k_ = 0
+    for name, f in sorted(b.methods.items()):
+        others = set()
+        for c in U.calls(f.node):
+            if isinstance(c.func, ast.Attribute) and c.func.attr in ('send_msg', 'send_bundle'):
+                for a in c.args:
+                    for x in ast.walk(a):
+                        if isinstance(x, ast.Attribute) and x.attr in ('bufnum', '_bufnum') and isinstance(x.value, ast.Name) \
+                                and x.value.id in f.params[1:]:
+                            others.add((x.value.id, x.attr))
+        for pn, at in sorted(others):
+            k_ += 1
+            tests = [norm(x.test) for x in f.node.body if isinstance(x, ast.If) and x.body and isinstance(x.body[-1], (ast.Raise, ast.Return))]
+            ok = any(f'{pn}.bufnum is None' in t or f'{pn}._bufnum is None' in t for t in tests)
+            ctx.ob('C17.guard', f'{f.fq}:{pn}:refuses-freed-other', ok,
+                   f'Buffer.{name} puts {pn}.{at} into a command without refusing a freed {pn}: the command names id None, sent as 0', f.node, f.module)
+    ctx.require(k_ >= 2, 'C17.guard', f'only {k_} uses of another buffer\'s number found')
     fa = b.methods['free_all']
     marks = [x for x in walk_local(fa.node) if isinstance(x, ast.Assign) and any(isinstance(t, ast.Attribute) and t.attr == '_bufnum' for t in x.targets)
              and isinstance(x.value, ast.Constant) and x.value.value is None]
@@ -457,6 +477,9 @@ def run(ctx):
 
 
 MUTANTS = [
+    dict(rule='C17.guard', name='(fix reverted) copy_data does not refuse a freed destination buffer', file='sc3/synth/buffer.py',
+         old="        if self._bufnum is None or dst_buffer.bufnum is None:\n            raise BufferAlreadyFreed('copy_data')",
+         new="        if self._bufnum is None:\n            raise BufferAlreadyFreed('copy_data')"),
     dict(rule='C17.pair', name='Node.free takes a missing group for already freed (seed C17-i)', file='sc3/synth/node.py',
          old="        if send_flag:\n            self.server.addr.send_msg('/n_free', self.node_id) # 11\n",
          new="        if self.group is None:\n            return\n        if send_flag:\n            self.server.addr.send_msg('/n_free', self.node_id) # 11\n"),
